@@ -23,7 +23,8 @@ func main() {
 	tx.Main(tx.Unit{Name: "T1", File: "GenMsg.v", Fn: genMsg},
 		tx.Unit{Name: "T1R", File: "GenMsgRec.v", Fn: genMsgRec},
 		tx.Unit{Name: "T1T", File: "GenMsgRecThms.v", Fn: genMsgRecThms},
-		tx.Unit{Name: "T1D", File: "GenDgram.v", Fn: genDgram})
+		tx.Unit{Name: "T1D", File: "GenDgram.v", Fn: genDgram},
+		tx.Unit{Name: "T1S", File: "GenReadSites.v", Fn: genReadSites})
 }
 
 type msgField struct {
